@@ -128,6 +128,9 @@ def corrupt(seed, c):
                 cut = p
             elif kind == "swap":
                 evs[p - 1], evs[p] = evs[p], evs[p - 1]
+            elif kind == "clock":
+                b = evs[p - 1]
+                evs[p - 1] = b[:4] + struct.pack("<Q", q) + b[12:]
             elif kind == "hdr":
                 hdr = hdr[:p] + bytes([q]) + hdr[p + 1:]
             elif kind == "meta":
@@ -194,6 +197,8 @@ def describe(c):
         return "stream %d truncated to %d bytes" % (c["stream"], c["p"])
     if k == "swap":
         return "stream %d events %d and %d swapped (clocks stay with their events)" % (c["stream"], c["p"], c["p"] + 1)
+    if k == "clock":
+        return "stream %d event %d clock set to %d (below its predecessor)" % (c["stream"], c["p"], c["q"])
     if k == "hdr":
         return "stream %d header byte %d set to %d" % (c["stream"], c["p"], c["q"])
     if k == "meta":
